@@ -25,7 +25,7 @@ def H(decls, call, post="", prime=None):
     """harness: nondet inputs named in_*, the call, optional extra assertions, reach marker"""
     if prime is None:
         import re as _re
-        m = _re.search(r"(\w+) = nondet_uint\(\)", decls)
+        m = _re.search(r"\b(characteristic_|characteristic|productOfAllCharacteristics_|Prime) = nondet_uint\(\)", decls)
         prime = m.group(1) if m else ("in_p" if "in_p" in decls else None)
     if prime:
         decls += f"\n#ifdef VP_REPLAYABLE\n  __CPROVER_assume(VP_LISTED_PRIME({prime}));\n#endif"
